@@ -487,7 +487,7 @@ Lemma clean_log_observables maxsz s0 gs :
 Proof.
   intros Hc Hv Hgf. split.
   - (* iteration *)
-    unfold log_iterate, gfc. rewrite refresh_log_of. unfold log_of at 1 2. cbn [lg_files].
+    unfold log_iterate, gfc. rewrite !refresh_log_of. unfold log_of. cbn [lg_files].
     rewrite gfc_loop_zero by assumption. cbn [skipn].
     rewrite dir_of_clean.
     pose proof (iter_files_from0 gs [] s0 true Hv) as H. cbn [app length] in H.
